@@ -15,7 +15,10 @@ PROP = "C19"
 
 def run(c):
     d = L.build_pipeline(c.tier, c.seed)
-    L.evaluate(c, PROP, d)
+    # in the multi-ledger histories (same keys, references and addresses on every ledger) a wrong idempotency /
+    # reference / outcome answer on one ledger is interference from another one: those predicates are C19's there
+    L.evaluate(c, PROP, d, extra_preds=(("Step_C13_Idempotency", "multi"), ("Step_C14_RefOutcome", "multi"),
+                                        ("Step_Outcome", "multi"), ("Step_C16_Independent", "multi")))
     pred, mut = M.CONTROLS[PROP]
     c.set("negative_control", L.negative_control(d, c.seed, pred, mut))
     # system level (spec/System.tla): the ledger registry and the bucket lifecycle - creation, metadata, bucket
